@@ -54,6 +54,10 @@ type funcContract struct {
 	callAssumeReq map[string]bool
 	exactDiv      bool
 	exactDivs     []string
+	holds         []holdSpec
+	readsUnlocked map[string]string
+	setupOnly     string
+	sweep         bool // synthetic contract of the lock-discipline sweep
 	ghostAt      []ghostUpdate
 	panicsOK     bool
 	havocOnly    bool // function is outside the subset: refutations only
@@ -96,6 +100,20 @@ type contractSet struct {
 	smt    []string
 	files  []string
 	errors []string
+	guards []*guardSpec
+}
+
+// guardSpec: field <typ>.<field> of package pkgPath may only be accessed while <typ>.<mu> of the same object is held.
+type guardSpec struct {
+	pkgPath, typ, field, mu string
+	file                    string
+	line                    int
+}
+
+type holdSpec struct {
+	expr  ast.Expr
+	text  string
+	write bool
 }
 
 func newContractSet() *contractSet {
@@ -313,6 +331,17 @@ func (cs *contractSet) loadFile(path, pkgPath string) error {
 		switch word {
 		case "package":
 			curPkg = rest
+		case "guarded":
+			// guarded <Type>.<field> by <mutex field>   (lock discipline, swept over the whole package for C19)
+			f := strings.Fields(rest)
+			dot := -1
+			if len(f) > 0 {
+				dot = strings.Index(f[0], ".")
+			}
+			if len(f) != 3 || f[1] != "by" || dot <= 0 {
+				return fail(fmt.Errorf("guarded needs: Type.field by mutexField"))
+			}
+			cs.guards = append(cs.guards, &guardSpec{pkgPath: curPkg, typ: f[0][:dot], field: f[0][dot+1:], mu: f[2], file: path, line: ln})
 		case "func":
 			cur = &funcContract{pkgPath: curPkg, name: rest, loops: map[int]*loopSpec{}, file: path, line: ln, callRequires: map[string][]*clause{}, expectFail: map[string]bool{}}
 			key := curPkg + "." + rest
@@ -394,6 +423,31 @@ func (cs *contractSet) loadFile(path, pkgPath string) error {
 				cur.tier = rest
 			case "alloc_bound":
 				cur.allocBound = rest
+			case "setup_only":
+				// setup_only <reason>: configuration method, called only before the object is shared with other
+				// goroutines (an assumption about the callers, listed in the evidence): no lock obligations
+				cur.setupOnly = rest
+				if rest == "" {
+					return fail(fmt.Errorf("setup_only needs a reason"))
+				}
+			case "reads_unlocked":
+				// reads_unlocked Type.field <reason>: this function runs on the goroutine that owns all writes of
+				// the field after construction, so its reads need no lock (an assumption, listed in the evidence)
+				f := strings.SplitN(rest, " ", 2)
+				if len(f) < 2 || !strings.Contains(f[0], ".") {
+					return fail(fmt.Errorf("reads_unlocked needs: Type.field reason"))
+				}
+				if cur.readsUnlocked == nil {
+					cur.readsUnlocked = map[string]string{}
+				}
+				cur.readsUnlocked[f[0]] = f[1]
+			case "holds", "holds_r":
+				// holds x.mu: the caller holds the (write / at least read) lock of the object x
+				e, err := parseSpecExpr(rest)
+				if err != nil {
+					return fail(err)
+				}
+				cur.holds = append(cur.holds, holdSpec{expr: e, text: rest, write: word == "holds"})
 			case "wraps":
 				cur.wraps = true
 			case "exact_divmod":
